@@ -27,7 +27,8 @@ REQUIRED_COUNTERS = {"towers": {"quick": 3000, "thorough": 60000},
                      "identity_pairs": {"quick": 200, "thorough": 2000},
                      "identitydict_ops": {"quick": 20000, "thorough": 400000},
                      "non_function_wrappers": {"quick": 1000, "thorough": 20000},
-                     "nest_same_name_deeper_in_earlier_sibling": {"quick": 300, "thorough": 6000}}
+                     "nest_same_name_deeper_in_earlier_sibling": {"quick": 300, "thorough": 6000},
+                     "late_customizations": {"quick": 100, "thorough": 400}}
 SHARD_TIMEOUT = {"quick": 400, "thorough": 5400}
 INTERPS = ["3.12", "3.11", "3.10", "3.9"]
 
@@ -329,6 +330,34 @@ def worker(spec):
         if not ok:
             res.violation(kind="code_dispatch registration is not by identity / latest does not win", variant=which,
                           interp=interp)
+
+    # ---- customizations made *after* the code has already been through an extraction --------------------
+    for rep in range(20 * scale):
+        def late_fn():
+            return extract_since(sys._getframe(0))
+        late_fn = types.FunctionType(late_fn.__code__.replace(co_name="late%d" % rep), globals(), "late%d" % rep,
+                                     None, late_fn.__closure__)
+        res.evaluations += 1
+        res.count("late_customizations")
+        first = late_fn().frames[0]
+        problems = []
+        if first.hide or first.hide_line:
+            problems.append("uncustomized frame is hidden")
+        customize(late_fn, hide=True)
+        if late_fn().frames[0].hide is not True:
+            problems.append("customize(hide=True) after a first extraction has no effect")
+        seen = []
+
+        @elaborate_frame.register(late_fn)
+        def _late(frame, nxt):
+            seen.append(frame.pyframe.f_code)
+            frame.hide_line = True
+
+        fr = late_fn().frames[0]
+        if seen != [late_fn.__code__] or fr.hide_line is not True:
+            problems.append("elaborate_frame hook registered after earlier extractions is not used")
+        if problems:
+            res.violation(kind="customization registered late is ignored", problems=problems, interp=interp)
 
     # ---- customize options ----------------------------------------------------------------------------
     combos = 0
